@@ -296,6 +296,7 @@ where
     .boxed()
 }
 
+#[cfg(not(fuzzing))]
 pub fn jobs(_env: &Env) -> Vec<Box<dyn Job>> {
     vec![
         sweep_job::<[u64; 3]>(3, true),
